@@ -1,5 +1,6 @@
 import Proofs.AlignSingleRun
 import Proofs.EditsInfer
+import Proofs.EditsSingleRun
 /-!
 C06 — within-line emphasis marks exactly what changed between paired lines.
 
@@ -130,6 +131,29 @@ theorem identical_no_emph (t : Tags) (m : Line) (a : Annotated) (h : annotatePai
   subst this
   exact annotatePair_identical t m m x x a hx hx rfl h
 
+/-- Section-level `single_run`: when the plus line's tokens are the minus line's tokens with one
+contiguous run `c :: b` inserted, the minus line carries no emphasis, the plus line carries
+exactly one emphasised section (one contiguous stretch), and its text has exactly the size of the
+difference. (`emphCount e secs` = number of sections tagged `e`; `emphText` = their text.) -/
+theorem single_run_insertion_sections (t : Tags) (m p : Line) (x y : List Tok) (a : Annotated)
+    (hx : tokenize m.gs m.spans = .ok x) (hy : tokenize p.gs p.spans = .ok y)
+    (pre suf : List (List Char)) (c : List Char) (b : List (List Char))
+    (h0 : tokTexts x = [] :: (pre ++ suf)) (h1 : tokTexts y = [] :: (pre ++ (c :: b) ++ suf))
+    (hd : t.noopDel ≠ t.del) (hi : t.noopIns ≠ t.ins) (h : annotatePair t m p = .ok a) :
+    (∀ s ∈ a.minus, s.tag = t.noopDel) ∧ emphCount t.ins a.plus = 1 ∧
+      (emphText t.ins a.plus).length + (text m.gs).length = (text p.gs).length :=
+  annotatePair_single_insertion t m p x y a hx hy pre suf c b h0 h1 hd hi h
+
+/-- Dually for a pure deletion. -/
+theorem single_run_deletion_sections (t : Tags) (m p : Line) (x y : List Tok) (a : Annotated)
+    (hx : tokenize m.gs m.spans = .ok x) (hy : tokenize p.gs p.spans = .ok y)
+    (pre suf : List (List Char)) (c : List Char) (b : List (List Char))
+    (h0 : tokTexts x = [] :: (pre ++ (c :: b) ++ suf)) (h1 : tokTexts y = [] :: (pre ++ suf))
+    (hd : t.noopDel ≠ t.del) (hi : t.noopIns ≠ t.ins) (h : annotatePair t m p = .ok a) :
+    (∀ s ∈ a.plus, s.tag = t.noopIns) ∧ emphCount t.del a.minus = 1 ∧
+      (emphText t.del a.minus).length + (text p.gs).length = (text m.gs).length :=
+  annotatePair_single_deletion t m p x y a hx hy pre suf c b h0 h1 hd hi h
+
 private def gA : G := ⟨['a'], 1, false⟩
 private def gB : G := ⟨['b'], 1, false⟩
 private def gS : G := ⟨[' '], 1, true⟩
@@ -234,6 +258,14 @@ theorem pairing_distance_zero (cfg : Cfg) (minus plus : List Line) (nd ni : List
   · intro hw s hs htag
     have := spec.emph_plus (hni tni h4) (hw x y ml pl h1 h2 hx hy) s hs htag
     omega
+
+private def lineA_B : Line := ⟨[gA, gS, gB], [(0, 1), (2, 3)]⟩
+private def lineA_A_B : Line := ⟨[gA, gS, gA, gS, gB], [(0, 1), (2, 3), (4, 5)]⟩
+example : (tokenize lineA_B.gs lineA_B.spans).map tokTexts = .ok ([] :: ([['a'], [' ']] ++ [['b']])) := by rfl
+example : (tokenize lineA_A_B.gs lineA_A_B.spans).map tokTexts =
+    .ok ([] :: ([['a'], [' ']] ++ (['a'] :: [[' ']]) ++ [['b']])) := by rfl
+example : (annotatePair ⟨0, 1, 2, 3⟩ lineA_B lineA_A_B).map (fun a => (emphCount 3 a.plus, emphText 3 a.plus)) =
+    .ok (1, ['a', ' ']) := by rfl
 
 private def cfg6 : Cfg := ⟨1, 3, 6, 10, 0, 1⟩
 example : (inferEdits cfg6 [lineAB, lineAA] [lineAA] [0, 0] [2]).map (·.alignment)
